@@ -356,8 +356,23 @@ class Gen:
             enc = r.choice(['char'] + INTEGRAL[1:])
             if enc == 'char':
                 vals = [{'name': 'A', 'value': 'A'}, {'name': 'B', 'value': 'B'}]
+                if self.maybe(0.4):
+                    vals.append({'name': 'Z', 'value': r.choice(['z', '0', '~'])})
+                    self.hit('enum.char_extra')
             else:
                 vals = [{'name': 'One', 'value': 1}, {'name': 'Two', 'value': 2}, {'name': 'Max', 'value': 100}]
+                if self.maybe(0.6):
+                    # values over the whole range of the encoding: the type's extremes, values that need more than
+                    # 31/32 bits, negative ones
+                    lo, hi = self.INT_RANGE[enc]
+                    cands = [c for c in (0, hi, hi - 1, lo, lo + 1, -1, -100, 2 ** 31, 2 ** 31 - 1, 2 ** 32, 2 ** 32 + 5,
+                                         2 ** 40 + 3, -2 ** 31 - 1, 255, 256, 65535, 65536, 128, -128, -129)
+                             if lo <= c <= hi and c not in (1, 2, 100)]
+                    cands = sorted(set(cands))
+                    r.shuffle(cands)
+                    for i, c in enumerate(cands[:r.randint(1, 3)]):
+                        vals.append({'name': 'W%d' % i, 'value': c})
+                    self.hit('enum.wide_values')
             if self.maybe(0.3) and enc != 'char':
                 tn = self.name('ET')
                 types.append({'k': 'type', 'name': tn, 'prim': enc})
